@@ -192,7 +192,7 @@ theorem dims_cap_reject (n : Nat) (h : 256 ≤ n) (s : JStr) :
 
 /-- the other JVMS validity rule for descriptors, §4.3.3 "total length of 255 or less", is *not* enforced by
 `MethodDescriptorSlice::parse`: 256 `int` parameters parse.  (It is not part of the grammar the property names;
-recorded so that the comparison with JVMS is complete.  `get_arguments_size` overflows its `u8` on such input, see
+recorded so that the comparison with JVMS is complete.  `get_arguments_size` refuses such input with an error, see
 `args_size_spec`.) -/
 theorem method_length_limit_not_enforced :
     parseMethod (LPAREN :: (List.replicate 256 cI ++ jstr ")V")) = some (List.replicate 256 (.prim .I), none) := by
@@ -207,10 +207,10 @@ theorem dims_cap :
 
 /-- on a method descriptor: 1 (the implicit `this`, always counted) + 2 per `long`/`double` + 1 per other parameter
 (arrays of `long`/`double` included); the return descriptor is ignored.  The accumulator is a `u8`: above 255 the
-overflow-checked build panics (JVMS §4.3.3 limits method descriptors to 255 slots, so this is outside valid class
-files). -/
+result is an error (cf30e8c; it was a panic of the overflow-checked build before; JVMS §4.3.3 limits method descriptors
+to 255 slots, so this is outside valid class files). -/
 theorem args_size_spec {s : JStr} {ps : List Ty} {rt : Option Ty} (h : MethodTy s (ps, rt)) :
-    argsSize s = if 1 + slotsSum ps ≤ 255 then .ok (1 + slotsSum ps) else .overflow := by
+    argsSize s = if 1 + slotsSum ps ≤ 255 then .ok (1 + slotsSum ps) else .err := by
   cases h with
   | mk hp hr =>
     rename_i a r
